@@ -18,7 +18,7 @@ HEADLINE = ['configurations', 'schedules_run', 'instants', 'series_checked', 'la
 ATTR = {'angular position': 'angular_position', 'angular speed': 'angular_speed', 'angular acceleration': 'angular_acceleration', 'torque': 'torque',
         'driving torque': 'driving_torque', 'load torque': 'load_torque', 'tangential force': 'tangential_force', 'bending stress': 'bending_stress',
         'contact stress': 'contact_stress', 'electric current': 'electric_current', 'pwm': 'pwm'}
-SCHEDS = ['run', 'continue', 'stop', 'reset', 'control', 'rejected']
+SCHEDS = ['run', 'continue', 'stop', 'reset', 'control', 'rejected', 'pwm0']
 
 
 def floors(tier):
@@ -43,6 +43,9 @@ def matrix():
         for s in subsets(('module', 'face_width', 'E')):
             out.append(('idler', cls, s, s, True))
     full = ('module', 'face_width', 'E')
+    for cur in ('zero_i0',):
+        # both currents given, the no-load current exactly 0 A (documented as allowed)
+        out += [('pair', 'spur', (), (), cur), ('pair', 'helical', full, full, cur), ('wormpair', 'worm', True, ('module', 'face_width'), cur), ('wormpair', 'wheel', False, (), cur)]
     for cur in ('i0', 'imax'):
         # a motor with only ONE of the two optional currents (the current is then not computable)
         out += [('pair', 'spur', (), (), cur), ('pair', 'helical', full, full, cur), ('wormpair', 'worm', True, ('module', 'face_width'), cur), ('wormpair', 'wheel', False, (), cur)]
@@ -71,7 +74,8 @@ def config_spec(cfg):
     kind = cfg[0]
     cur = cfg[4]
     motor = {'type': 'motor', 'name': 'motor', 'J': GEN.Q('InertiaMoment', 5, 'gcm^2'), 'w0': GEN.Q('AngularSpeed', 2000, 'rpm'), 'Tmax': GEN.Q('Torque', 10, 'mNm'),
-             'i0': GEN.Q('Current', 0.1, 'A') if cur in (True, 'i0') else None, 'imax': GEN.Q('Current', 2, 'A') if cur in (True, 'imax') else None}
+             'i0': GEN.Q('Current', 0 if cur == 'zero_i0' else 0.1, 'A') if cur in (True, 'i0', 'zero_i0') else None,
+             'imax': GEN.Q('Current', 2, 'A') if cur in (True, 'imax', 'zero_i0') else None}
     chain = []
     if kind in ('pair', 'idler'):
         _, cls, s1, s2, _ = cfg
@@ -124,6 +128,10 @@ def with_schedule(spec, sched, rng):
         spec['schedule'] = [dict(run, T=GEN.Q('TimeInterval', 0.3, 'ms'))]
     elif sched == 'reset':
         spec['schedule'] = [run, {'op': 'reset'}, {'op': 'reapply'}] + ([{'op': 'newsolver'}] if rng.random() < 0.5 else []) + [run, dict(run, T=GEN.Q('TimeInterval', 0.05, 'ms'))]
+    elif sched == 'pwm0':
+        # motor switched off from the first instant on (duty cycle exactly 0), then switched on by hand for a continuation
+        spec['ic'] = dict(spec['ic'], pwm=0)
+        spec['schedule'] = [run, {'op': 'setpwm', 'value': 1}, {'op': 'run', 'dt': GEN.Q('TimeInterval', 2e-5, 'sec'), 'T': GEN.Q('TimeInterval', 1e-4, 'sec')}]
     elif sched == 'rejected':
         # calls the library rejects while checking their arguments, before, between and after real runs (the first one because
         # the load function was forgotten): they leave no trace
